@@ -240,3 +240,11 @@ def record_canon(detector, tag=None):
     """Model function: record what a model at this pipeline position sees."""
     TRACE.append(dict(tag=tag, name=detector.current_running_model_name, step=int(detector.pipeline_count),
                       canon=canon_detector(detector)))
+
+
+def fill_from_spec(detector, init=None):
+    """Model function: initialise containers of the running detector from a plain spec (the same builder the driver
+    uses outside pipelines), so that a later save_detector / load_detector meets a detector that is not empty."""
+    from harness.drivers.c18 import fill
+
+    fill(detector, init or {}, detector.geometry.row, detector.geometry.col)
